@@ -8,8 +8,8 @@ CC_PROPS = ["C01", "C02", "C05", "C06", "C08", "C09", "C11", "C12", "C13", "C14"
 
 TIERS = {
     # universe -> MaxEqs
-    "quick": {"U1": 2, "U2": 2, "U3": 2, "U4": 2, "U5": 2, "U6": 2, "U7": 3, "U8": 2, "U9": 3, "U10": 2, "U11": 2, "U12": 2, "U13": 2, "U14": 2, "U15": 2, "U16": 2, "U17": 3, "U18": 2},
-    "thorough": {"U1": 3, "U2": 3, "U3": 3, "U4": 3, "U5": 3, "U6": 3, "U7": 4, "U8": 3, "U9": 4, "U10": 3, "U11": 3, "U12": 3, "U13": 3, "U14": 3, "U15": 3, "U16": 3, "U17": 3, "U18": 3},
+    "quick": {"U1": 2, "U2": 2, "U3": 2, "U4": 2, "U5": 2, "U6": 2, "U7": 3, "U8": 2, "U9": 3, "U10": 2, "U11": 2, "U12": 2, "U13": 2, "U14": 2, "U15": 2, "U16": 2, "U17": 3, "U18": 2, "U19": 3},
+    "thorough": {"U1": 3, "U2": 3, "U3": 3, "U4": 3, "U5": 3, "U6": 3, "U7": 4, "U8": 3, "U9": 4, "U10": 3, "U11": 3, "U12": 3, "U13": 3, "U14": 3, "U15": 3, "U16": 3, "U17": 3, "U18": 3, "U19": 3},
 }
 
 
